@@ -155,6 +155,8 @@ def run(ctx: Ctx) -> None:
                         "the number of executed instructions")
     r.floor(8)
 
+    from ..wiring import wiring_rule
+    wiring_rule(ctx, "R11.wire", which=("instruction",))
     acct_rule(ctx, "R11.acct", only=lambda f: f.name == "read_instruction")
     hit_rule(ctx, "R11.hit")
     load_rules(ctx, "R11.load", icache_only=True)
